@@ -4,28 +4,73 @@ Monitor: range model (Python ints) applied to every store path that cffi
 implements separately, on the same values; C-side recorder functions of a
 compiled helper module echo what C received; byte images of the target
 before/after a rejected store.
+
+Store paths (every one is judged by the same model):
+  memory      new, ptr item, array item, field, list/tuple array initializers,
+              list/dict struct initializers, nested struct / union / array
+              fields (assignment and initializer forms), slice assignment,
+              unaligned targets (odd pointer, packed struct, from_buffer);
+  globals     in-line ABI (dlopen), API module, out-of-line ABI module;
+  arguments   one-argument and multi-argument functions, pointer arguments
+              given as list/tuple, by-value struct arguments given as list/dict,
+              fixed argument of a variadic function -- each through the API
+              wrapper, libffi (addressof), in-line ABI, out-of-line ABI, and the
+              one-argument case also through an ffi.verify() module;
+  results     callback (error=/default/onerror=, API- and ABI-mode ffi, called
+              from C and from Python), extern "Python" (error=/onerror=).
+Value forms: exact int, int subclass, bool.
 """
-import os, sys
-from vlib import gen, core, modbuild
+import os, sys, json, subprocess, threading
+from vlib import gen, core, modbuild, build
 
 RULE = ("case = (integer type T, store path, Python int v); T over all standard/<stdint.h> names, "
-        "_Bool and three enums; paths: new, ptr-item, array-item, field, ABI global, API global, "
+        "_Bool and four enums; paths: new, ptr-item, array-item, field, ABI global, API global, "
         "API arg, libffi arg, ABI (dlopen) arg, callback result (error=/default), extern-Python "
-        "result; v over the boundary lattice (all 2**k +-1, k<=70, type limits +-2, 2**100) and "
-        "random ints of up to 130 bits; distinct = (T,path,v); non-trivial = |v| > 1")
+        "result [full value set]; list/tuple/dict initializers, nested/union/array fields, slice "
+        "assignment, unaligned targets, int-subclass/bool value forms, out-of-line-ABI global/arg, "
+        "ffi.verify() arg, multi-arg / pointer(list) / by-value-struct / variadic-fixed args through "
+        "API wrapper, libffi, ABI; callback onerror=, ABI-mode callback, extern-Python onerror= "
+        "[medium value set]; v over the boundary lattice (all 2**k +-1, k<=70, type limits +-1, "
+        "2**100) and random ints of up to 130 bits; error values drawn per case from the type's "
+        "range; distinct = (T,path,v); non-trivial = |v| > 1")
 ASSUMPTIONS = ["the C recorder functions compiled by gcc report what the C callee received",
-               "range of T is taken from gen.INT_TYPES (checked against gcc by C06)"]
+               "range of T is taken from gen.INT_TYPES (checked against gcc by C06)",
+               "little/big endian two's complement byte image of T as given by sys.byteorder"]
 
 ENUMS = [('enum es', 4, True, 'enum es { ES_A = -1, ES_B = 5 };'),
          ('enum eu', 4, False, 'enum eu { EU_A = 0, EU_B = 3000000000 };'),
-         ('enum el', 8, True, 'enum el { EL_A = -1, EL_B = 5000000000 };')]
+         ('enum el', 8, True, 'enum el { EL_A = -1, EL_B = 5000000000 };'),
+         ('enum eul', 8, False, 'enum eul { EUL_A = 0, EUL_B = 10000000000000000000 };')]
 TYPES = [(t, s, sg) for (t, s, sg) in gen.INT_TYPES] + [('_Bool', 1, False)] + \
     [(e[0], e[1], e[2]) for e in ENUMS]
+
+# paths that get the full value set
 PATHS = ['new', 'ptritem', 'arrayitem', 'field', 'abiglobal', 'apiglobal', 'apiarg',
          'ffiarg', 'abiarg', 'callback_err', 'callback_noerr', 'externpy']
-
-
 SLOW_PATHS = ('callback_err', 'callback_noerr', 'externpy')
+# paths added for the other entry points / input forms: medium value set
+MED_PATHS = ['newarray', 'newstruct', 'nested', 'slice', 'unaligned', 'forms',
+             'oolglobal', 'oolarg', 'verifyarg',
+             'apiarg2', 'ffiarg2', 'abiarg2', 'oolarg2',
+             'apiptrarg', 'ffiptrarg', 'abiptrarg',
+             'apistructarg', 'ffistructarg', 'abistructarg',
+             'apivararg', 'abivararg',
+             'callback_onerror', 'callback_abi', 'externpy_onerror']
+
+# (kind, how) of the call-argument paths
+CALL_PATHS = {
+    'apiarg': ('arg', 'api'), 'ffiarg': ('arg', 'ffi'), 'abiarg': ('arg', 'abi'),
+    'oolarg': ('arg', 'ool'), 'verifyarg': ('arg', 'verify'),
+    'apiarg2': ('arg2', 'api'), 'ffiarg2': ('arg2', 'ffi'), 'abiarg2': ('arg2', 'abi'),
+    'oolarg2': ('arg2', 'ool'),
+    'apiptrarg': ('ptrarg', 'api'), 'ffiptrarg': ('ptrarg', 'ffi'), 'abiptrarg': ('ptrarg', 'abi'),
+    'apistructarg': ('structarg', 'api'), 'ffistructarg': ('structarg', 'ffi'),
+    'abistructarg': ('structarg', 'abi'),
+    'apivararg': ('vararg', 'api'), 'abivararg': ('vararg', 'abi'),
+}
+FUNC_PREFIX = {'arg': 'id_', 'arg2': 'pick_', 'ptrarg': 'at_', 'structarg': 'sf_',
+               'vararg': 'vf_'}
+SENTINEL = 777
 
 
 def ident(T):
@@ -38,44 +83,141 @@ def trange(T, size, signed):
     return gen.int_range(size, signed)
 
 
+def enum_decl(T):
+    for e in ENUMS:
+        if e[0] == T:
+            return e[3]
+    return ''
+
+
 def module_spec(d):
     cdef, src = [], []
     for e in ENUMS:
         cdef.append(e[3])
         src.append(e[3])
-    src.append('long long last_s; unsigned long long last_u;')
-    cdef.append('long long last_s; unsigned long long last_u;')
+    src.append('long long last_s; unsigned long long last_u; long last_k;')
+    cdef.append('long long last_s; unsigned long long last_u; long last_k;')
     for T, size, signed in TYPES:
         N = ident(T)
         src.append('''
+struct st_%(N)s { char pad; %(T)s f; char pad2; };
 %(T)s g_%(N)s;
-%(T)s id_%(N)s(%(T)s x) { last_s = (long long)x; last_u = (unsigned long long)x; return x; }
+#define REC_%(N)s(x) (last_s = (long long)(x), last_u = (unsigned long long)(x))
+%(T)s id_%(N)s(%(T)s x) { REC_%(N)s(x); return x; }
+%(T)s pick_%(N)s(signed char k, %(T)s a, short m, %(T)s b)
+{ %(T)s r = k ? b : a; REC_%(N)s(r); last_k = k * 1000 + m; return r; }
+%(T)s at_%(N)s(%(T)s *p, int i) { %(T)s r = p[i]; REC_%(N)s(r); last_k = i; return r; }
+%(T)s sf_%(N)s(struct st_%(N)s s) { REC_%(N)s(s.f); last_k = s.pad + 256 * s.pad2; return s.f; }
+%(T)s vf_%(N)s(%(T)s x, ...) { REC_%(N)s(x); return x; }
 %(T)s call_%(N)s(%(T)s (*cb)(void)) { return cb(); }
 static %(T)s ep_%(N)s(void);
 %(T)s callep_%(N)s(void) { return ep_%(N)s(); }
-struct st_%(N)s { char pad; %(T)s f; char pad2; };
 ''' % {'T': T, 'N': N})
         cdef.append('''
+struct st_%(N)s { char pad; %(T)s f; char pad2; };
 %(T)s g_%(N)s;
 %(T)s id_%(N)s(%(T)s x);
+%(T)s pick_%(N)s(signed char k, %(T)s a, short m, %(T)s b);
+%(T)s at_%(N)s(%(T)s *p, int i);
+%(T)s sf_%(N)s(struct st_%(N)s s);
+%(T)s vf_%(N)s(%(T)s x, ...);
 %(T)s call_%(N)s(%(T)s (*cb)(void));
 extern "Python" %(T)s ep_%(N)s(void);
 %(T)s callep_%(N)s(void);
-struct st_%(N)s { char pad; %(T)s f; char pad2; };
 ''' % {'T': T, 'N': N})
     return {'name': '_c03mod', 'kind': 'api', 'cdef': '\n'.join(cdef),
             'source': '#include <stdint.h>\n#include <sys/types.h>\n#include <stddef.h>\n'
                       + '\n'.join(src), 'dir': d}
 
 
-def generate(ctx):
-    rng = ctx.rng('gen')
+def abi_cdef(cdef):
+    import re
+    return re.sub(r'extern "Python"[^;]*;', '', cdef)
+
+
+def ool_spec(d, cdef):
+    """Out-of-line ABI module (pure Python) describing the same shared object."""
+    return {'name': '_c03ool', 'kind': 'abi', 'cdef': abi_cdef(cdef), 'source': None, 'dir': d}
+
+
+def verify_parts():
+    """cdef and source of the module built with the old ffi.verify() engine."""
+    cdef, src = [], ['#include <stdint.h>\n#include <sys/types.h>\n#include <stddef.h>']
+    for e in ENUMS:
+        cdef.append(e[3])
+        src.append(e[3])
+    cdef.append('long long vlast_s; unsigned long long vlast_u;')
+    src.append('long long vlast_s; unsigned long long vlast_u;')
+    for T, size, signed in TYPES:
+        N = ident(T)
+        cdef.append('%s vid_%s(%s x);' % (T, N, T))
+        src.append('%s vid_%s(%s x) { vlast_s = (long long)x; vlast_u = (unsigned long long)x; '
+                   'return x; }' % (T, N, T))
+    return '\n'.join(cdef), '\n'.join(src)
+
+
+_VERIFY_BUILDER = r'''
+import sys, json, warnings
+warnings.simplefilter('ignore')
+spec = json.load(open(sys.argv[1]))
+from cffi import FFI
+from cffi.verifier import Verifier
+ffi = FFI()
+ffi.cdef(spec['cdef'])
+v = Verifier(ffi, spec['source'], tmpdir=spec['tmpdir'])
+v.load_library()
+json.dump({'ok': True, 'file': v.modulefilename}, open(sys.argv[1] + '.result', 'w'))
+'''
+
+
+def build_verify(ctx, d):
+    """Compile the ffi.verify() module in a plain child; the sanitized children
+    find the compiled file by its hash and only load it."""
+    os.makedirs(d, exist_ok=True)
+    cdef, src = verify_parts()
+    p = os.path.join(d, 'verify.spec.json')
+    with open(p, 'w') as f:
+        json.dump({'cdef': cdef, 'source': src, 'tmpdir': d}, f)
+    try:
+        r = subprocess.run(build.python_cmd('plain') + ['-c', _VERIFY_BUILDER, p],
+                           env=build.child_env('plain'), cwd=d, stdout=subprocess.PIPE,
+                           stderr=subprocess.STDOUT, timeout=600)
+        with open(p + '.result') as f:
+            return json.load(f)
+    except (OSError, ValueError, subprocess.TimeoutExpired) as e:
+        return {'ok': False, 'error': '%s: %s' % (type(e).__name__, str(e)[-500:])}
+
+
+def build_all(ctx):
     d = os.path.join(ctx.tmp, 'mod')
     spec = module_spec(d)
-    san = ctx.thorough
-    res = modbuild.build_modules(ctx, [spec])['_c03mod']
-    if not res['ok']:
-        raise core.Inconclusive('helper module build failed: ' + res['error'] + res.get('log', ''))
+    vres = {}
+    th = threading.Thread(target=lambda: vres.update(build_verify(ctx, os.path.join(d, 'verify'))))
+    th.start()
+    res = modbuild.build_modules(ctx, [spec, ool_spec(d, spec['cdef'])])
+    th.join()
+    if not res['_c03mod']['ok']:
+        raise core.Inconclusive('helper module build failed: ' + res['_c03mod']['error'] +
+                                res['_c03mod'].get('log', ''))
+    if not res['_c03ool']['ok']:
+        raise core.Inconclusive('out-of-line ABI module build failed: ' + res['_c03ool']['error'])
+    if not vres.get('ok'):
+        raise core.Inconclusive('ffi.verify() module build failed: ' + str(vres.get('error')))
+    return {'dir': d, 'cdef': spec['cdef'], 'vdir': os.path.join(d, 'verify')}
+
+
+def err_candidates(T, lo, hi, signed):
+    if T == '_Bool':
+        return [1]
+    c = [hi - 3 if hi > 10 else 3, lo, hi, lo + 1, hi - 1]
+    if signed:
+        c += [-2, -1]
+    return [x for x in c if lo <= x <= hi and x != 0]
+
+
+def generate(ctx):
+    rng = ctx.rng('gen')
+    setup = build_all(ctx)
     nrand = ctx.scale(40, 4000)
     cases = []
     for T, size, signed in TYPES:
@@ -87,40 +229,115 @@ def generate(ctx):
         vals = sorted(vals)
         cbvals = sorted(set(gen.small_lattice(lo, hi)) |
                         set(rng.sample(vals, min(len(vals), ctx.scale(20, 400)))))
+        errs = err_candidates(T, lo, hi, signed)
         for path in PATHS:
-            cases.append({'T': T, 'size': size, 'signed': signed, 'path': path,
-                          'vals': cbvals if path in SLOW_PATHS else vals})
+            v = list(cbvals if path in SLOW_PATHS else vals)
+            if rng.random() < 0.5:
+                rng.shuffle(v)       # history: rejected/accepted stores in any order
+            cases.append({'T': T, 'size': size, 'signed': signed, 'path': path, 'vals': v,
+                          'errv': rng.choice(errs)})
+        for path in MED_PATHS:
+            v = sorted(set(gen.small_lattice(lo, hi)) |
+                       set(rng.sample(vals, min(len(vals), ctx.scale(10, 300)))))
+            rng.shuffle(v)
+            cases.append({'T': T, 'size': size, 'signed': signed, 'path': path, 'vals': v,
+                          'errv': rng.choice(errs)})
     rng.shuffle(cases)
-    return {'dir': d, 'cdef': spec['cdef']}, cases
+    return setup, cases
 
 
 def child_setup(setup, wd):
     sys.path.insert(0, setup['dir'])
+    import warnings
+    warnings.simplefilter('ignore')
     import _c03mod
+    import _c03ool
     from cffi import FFI
     affi = FFI()
-    # ABI view of the same shared object: globals and functions only
-    import re
-    cdef = re.sub(r'extern "Python"[^;]*;', '', setup['cdef'])
-    affi.cdef(cdef)
+    # in-line ABI view of the same shared object: globals and functions only
+    affi.cdef(abi_cdef(setup['cdef']))
     alib = affi.dlopen(_c03mod.__file__)
+    # out-of-line ABI view
+    olib = _c03ool.ffi.dlopen(_c03mod.__file__)
+    # ffi.verify() module: compiled by the parent's builder, only loaded here
+    vffi, vlib = None, None
+    from cffi.verifier import Verifier
+    vcdef, vsrc = verify_parts()
+    vffi = FFI()
+    vffi.cdef(vcdef)
+    ver = Verifier(vffi, vsrc, tmpdir=setup['vdir'])
+    if os.path.exists(ver.modulefilename):
+        vlib = ver.load_library()
     sys.stderr = open(os.devnull, 'w')
     sys.unraisablehook = lambda *a: None
-    return {'ffi': _c03mod.ffi, 'lib': _c03mod.lib, 'affi': affi, 'alib': alib, 'ep': {}}
+    return {'ffi': _c03mod.ffi, 'lib': _c03mod.lib, 'affi': affi, 'alib': alib,
+            'offi': _c03ool.ffi, 'olib': olib, 'vffi': vffi, 'vlib': vlib, 'nested': {}}
+
+
+class MyInt(int):
+    """A plain subclass of int: still a Python int whose value is the int's value."""
+    __slots__ = ()
+
+
+NESTED_CDEF = '''
+struct in_s { %(T)s f; };
+union un_s { char ch; %(T)s u; };
+struct nest { char c; struct in_s inn; %(T)s arr[3]; union un_s un; struct in_s sa[2]; };
+'''
+PACKED_CDEF = 'struct pk { char c; %(T)s f; char d; };'
+
+
+def nested_ffi(st, T):
+    nf = st['nested'].get(T)
+    if nf is None:
+        from cffi import FFI
+        nf = FFI()
+        nf.cdef(enum_decl(T) + NESTED_CDEF % {'T': T})
+        nf.cdef(PACKED_CDEF % {'T': T}, packed=True)
+        st['nested'][T] = nf
+    return nf
 
 
 def child_case(st, case):
     ffi, lib, affi, alib = st['ffi'], st['lib'], st['affi'], st['alib']
+    offi, olib, vffi, vlib = st['offi'], st['olib'], st['vffi'], st['vlib']
     T, path, size, signed = case['T'], case['path'], case['size'], case['signed']
     N = ident(T)
     lo, hi = trange(T, size, signed)
+    isbool = (T == '_Bool')
+    csigned = signed and not isbool
     bad = []
     counts = {'accepted': 0, 'rejected': 0}
-    ERRV = 1 if T == '_Bool' else (hi - 3 if hi > 10 else 3)
+    ERRV = case.get('errv')
+    if ERRV is None:
+        ERRV = 1 if isbool else (hi - 3 if hi > 10 else 3)
+    # in-range neighbour values and a second in-range value W != ERRV
+    A, B = lo, hi
+    W = hi - 1 if hi - 1 not in (0, ERRV) else (hi if hi != ERRV else 1)
     cur = {}
+    fill = bytes([0x5a]) * 64
+    # type class used in one mechanism key: unsigned and narrower than a libffi 'ffi_arg'
+    SMALLU = '-unsigned-small' if (not csigned and size < 8) else ''
+
+    def stat(name, n=1):
+        counts[name] = counts.get(name, 0) + n
+
+    def onerror_handler(exc, val, tb):
+        cur['onerr'].append(getattr(exc, '__name__', repr(exc)))
+        mode = cur['mode']
+        if mode == 0:
+            return None
+        if mode == 1:
+            return W
+        return cur['v']          # mode 2: an out-of-range result from onerror itself
+
     if path == 'externpy':
         @ffi.def_extern(name='ep_' + N, error=ERRV)
         def _ep():
+            return cur['v']
+    elif path == 'externpy_onerror':
+        @ffi.def_extern(name='ep_' + N, error=ERRV, onerror=onerror_handler)
+        def _ep2():
             return cur['v']
 
     def norm(x):
@@ -131,108 +348,459 @@ def child_case(st, case):
     def rep(mech, msg, v):
         if len(bad) < 25:
             bad.append([mech, msg, v])
-    for v in case['vals']:
+
+    def image(b):
+        if isbool:
+            return b[0]
+        return int.from_bytes(b, sys.byteorder, signed=csigned)
+
+    def recorded(how):
+        if how == 'verify':
+            return vlib.vlast_s if csigned else vlib.vlast_u
+        return lib.last_s if csigned else lib.last_u
+
+    def reset_recorders(how):
+        if how == 'verify':
+            vlib.vlast_s = SENTINEL
+            vlib.vlast_u = SENTINEL
+        else:
+            lib.last_s = SENTINEL
+            lib.last_u = SENTINEL
+            lib.last_k = SENTINEL
+
+    def func(kind, how):
+        name = FUNC_PREFIX[kind] + N
+        if how == 'api':
+            return getattr(lib, name), ffi
+        if how == 'ffi':
+            f = getattr(lib, name)
+            if kind != 'vararg':
+                f = ffi.addressof(lib, name)
+            return f, ffi
+        if how == 'abi':
+            return getattr(alib, name), affi
+        if how == 'ool':
+            return getattr(olib, name), offi
+        if how == 'verify':
+            return getattr(vlib, 'vid_' + N), vffi
+        raise ValueError(how)
+
+    if path == 'verifyarg' and vlib is None:
+        return {'bad': bad, 'counts': {'verify_module_missing': 1}, 'skipped': True}
+
+    for idx, v in enumerate(case['vals']):
         inr = lo <= v <= hi
-        target = None      # (cdata whose bytes must stay unchanged on rejection)
+        target = None      # cdata / buffer whose bytes must stay unchanged on rejection
+        tbuf = None        # callable returning the current bytes of the target
+        keep = None        # list of (offset, length) that must be unchanged (None: everything)
+        imgat = None       # offset of the stored item inside the target (byte-image oracle)
+        post = None        # extra checks after an accepted store
         got = None
         exc = None
         before = None
+        ep = path          # effective path
+        V = v              # the object handed to cffi
+        callhow = None
+        if path == 'forms':
+            ep = ('new', 'ptritem', 'apiarg', 'ffiarg', 'field', 'apiglobal')[idx % 6]
+            if v in (0, 1) and idx % 2:
+                V = bool(v)
+                stat('form_bool')
+            else:
+                V = MyInt(v)
+                stat('form_intsubclass')
         try:
-            if path == 'new':
-                p = ffi.new(T + ' *', v)
+            if ep == 'new':
+                p = ffi.new(T + ' *', V)
                 got = p[0]
-            elif path == 'ptritem':
+                target, imgat = p, 0
+            elif ep == 'ptritem':
                 p = ffi.new(T + ' *')
                 if not inr:
                     ffi.buffer(p)[:] = b'\x5a' * size
-                target = p
+                target, imgat = p, 0
                 before = bytes(ffi.buffer(p))
-                p[0] = v
+                p[0] = V
                 got = p[0]
-            elif path == 'arrayitem':
+            elif ep == 'arrayitem':
                 p = ffi.new(T + '[3]')
                 ffi.buffer(p)[:] = b'\xa5' * (3 * size)
-                target = p
+                target, imgat = p, size
                 before = bytes(ffi.buffer(p))
-                p[1] = v
+                p[1] = V
                 got = p[1]
                 b = bytes(ffi.buffer(p))
                 if b[:size] != before[:size] or b[2 * size:] != before[2 * size:]:
                     rep('neighbour-changed', '%s array item store of %d changed neighbours' %
                         (T, v), v)
-            elif path == 'field':
+            elif ep == 'field':
                 p = ffi.new('struct st_%s *' % N)
                 ffi.buffer(p)[:] = b'\x3c' * ffi.sizeof(p[0])
-                target = p
+                target, imgat = p, ffi.offsetof('struct st_' + N, 'f')
                 before = bytes(ffi.buffer(p))
-                p.f = v
+                p.f = V
                 got = p.f
                 if p.pad != b'\x3c' or p.pad2 != b'\x3c':
                     rep('neighbour-changed', '%s field store of %d changed neighbours' % (T, v),
                         v)
-            elif path == 'abiglobal':
+            elif ep == 'newarray':
+                form = idx % 4
+                stat('newarray_form%d' % form)
+                if form == 0:
+                    p = ffi.new(T + '[]', [A, V, B])
+                    got, rest = p[1], [(0, A), (2, B)]
+                elif form == 1:
+                    p = ffi.new(T + '[3]', (A, V, B))
+                    got, rest = p[1], [(0, A), (2, B)]
+                elif form == 2:
+                    p = ffi.new(T + '[4]', [B, V])
+                    got, rest = p[1], [(0, B), (2, 0), (3, 0)]
+                else:
+                    p = ffi.new(T + '[]', (V,))
+                    got, rest = p[0], []
+                    if len(p) != 1:
+                        rep('neighbour-changed', '%s[] from a 1-tuple has length %d' %
+                            (T, len(p)), v)
+                for i, w in rest:
+                    if norm(p[i]) != w:
+                        rep('neighbour-changed', '%s array initializer with %d: item %d reads '
+                            '%r, expected %d' % (T, v, i, p[i], w), v)
+                target, imgat = p, (0 if form == 3 else size)
+            elif ep == 'newstruct':
+                form = idx % 4
+                stat('newstruct_form%d' % form)
+                sname = 'struct st_%s *' % N
+                if form == 0:
+                    p = ffi.new(sname, [b'a', V, b'b'])
+                    pads = (b'a', b'b')
+                elif form == 1:
+                    p = ffi.new(sname, {'f': V})
+                    pads = (b'\x00', b'\x00')
+                elif form == 2:
+                    p = ffi.new(sname, {'pad2': b'z', 'f': V, 'pad': b'y'})
+                    pads = (b'y', b'z')
+                else:
+                    p = ffi.new(sname, (b'q', V))
+                    pads = (b'q', b'\x00')
+                got = p.f
+                if (p.pad, p.pad2) != pads:
+                    rep('neighbour-changed', '%s struct initializer with %d: pads read %r' %
+                        (T, v, (p.pad, p.pad2)), v)
+                target, imgat = p, ffi.offsetof('struct st_' + N, 'f')
+            elif ep == 'nested':
+                nf = nested_ffi(st, T)
+                form = idx % 12
+                stat('nested_form%d' % form)
+                o_inn = nf.offsetof('struct nest', 'inn')
+                o_arr = nf.offsetof('struct nest', 'arr')
+                o_un = nf.offsetof('struct nest', 'un')
+                o_sa = nf.offsetof('struct nest', 'sa')
+                if form < 8:
+                    p = nf.new('struct nest *')
+                    n = nf.sizeof('struct nest')
+                    nf.buffer(p)[:] = fill[:1] * n
+                    target = p
+                    tbuf = lambda p=p, nf=nf: bytes(nf.buffer(p))
+                    before = tbuf()
+                    if form == 0:
+                        imgat = o_inn
+                        p.inn.f = V
+                        got = p.inn.f
+                    elif form == 1:
+                        imgat = o_arr + size
+                        p.arr[1] = V
+                        got = p.arr[1]
+                    elif form == 2:
+                        imgat = o_un
+                        p.un.u = V
+                        got = p.un.u
+                    elif form == 3:
+                        imgat = o_sa + size
+                        p.sa[1].f = V
+                        got = p.sa[1].f
+                    elif form == 4:
+                        imgat = o_inn
+                        nf.addressof(p, 'inn', 'f')[0] = V
+                        got = p.inn.f
+                    elif form == 5:
+                        imgat = o_inn
+                        p.inn = [V]
+                        got = p.inn.f
+                    elif form == 6:
+                        # items before the rejected one are legitimately stored
+                        imgat = o_arr + 2 * size
+                        keep = [(0, o_arr), (o_arr + 2 * size, n - o_arr - 2 * size)]
+                        p.arr = [A, B, V]
+                        got = p.arr[2]
+                        if (norm(p.arr[0]), norm(p.arr[1])) != (A, B):
+                            rep('neighbour-changed', '%s: p.arr = [..] with %d stored %r' %
+                                (T, v, list(p.arr)), v)
+                    else:
+                        imgat = o_un
+                        p.un = {'u': V}
+                        got = p.un.u
+                    if form != 6:
+                        def post(p=p, nf=nf, before=before, at=imgat):
+                            b = bytes(nf.buffer(p))
+                            if b[:at] != before[:at] or b[at + size:] != before[at + size:]:
+                                return 'bytes outside the stored item changed'
+                else:
+                    if form == 8:
+                        p = nf.new('struct nest *', {'inn': {'f': V}})
+                        got, imgat = p.inn.f, o_inn
+                    elif form == 9:
+                        p = nf.new('struct nest *', {'arr': [A, V]})
+                        got, imgat = p.arr[1], o_arr + size
+                        if norm(p.arr[0]) != A or norm(p.arr[2]) != 0:
+                            rep('neighbour-changed', '%s nested array initializer with %d reads '
+                                '%r' % (T, v, list(p.arr)), v)
+                    elif form == 10:
+                        p = nf.new('struct nest *', [b'c', [V], [A, B, V]])
+                        got, imgat = p.inn.f, o_inn
+                        if norm(p.arr[2]) != norm(got) or norm(p.arr[0]) != A or \
+                                norm(p.arr[1]) != B:
+                            rep('neighbour-changed', '%s nested list initializer with %d reads '
+                                '%r' % (T, v, list(p.arr)), v)
+                    else:
+                        q = nf.new('struct nest[2]', [{}, {'un': {'u': V}}])
+                        p = q
+                        got, imgat = q[1].un.u, nf.sizeof('struct nest') + o_un
+                    target = p
+                    tbuf = lambda p=p, nf=nf: bytes(nf.buffer(p))
+            elif ep == 'slice':
+                form = idx % 4
+                stat('slice_form%d' % form)
+                p = ffi.new(T + '[5]')
+                ffi.buffer(p)[:] = b'\xa5' * (5 * size)
+                target = p
+                before = bytes(ffi.buffer(p))
+                if form == 0:
+                    pos, start, stop = 1, 1, 3
+                    p[1:3] = [V, W]
+                elif form == 1:
+                    pos, start, stop = 2, 1, 3
+                    p[1:3] = (W, V)
+                elif form == 2:
+                    pos, start, stop = 2, 1, 4
+                    keep = None
+                    p[1:4] = iter([W, V, W])
+                else:
+                    pos, start, stop = 2, 2, 3
+                    p[2:3] = [V]
+                got = p[pos]
+                imgat = pos * size
+                for i in range(start, stop):
+                    if i != pos and norm(p[i]) != W:
+                        rep('neighbour-changed', '%s slice store with %d: item %d reads %r, '
+                            'expected %d' % (T, v, i, p[i], W), v)
+                b = bytes(ffi.buffer(p))
+                if b[:start * size] != before[:start * size] or \
+                        b[stop * size:] != before[stop * size:]:
+                    rep('neighbour-changed', '%s slice store of %d changed items outside the '
+                        'slice' % (T, v), v)
+            elif ep == 'unaligned':
+                form = idx % 3
+                stat('unaligned_form%d' % form)
+                if form == 0:
+                    raw = ffi.new('char[]', 3 * size + 2)
+                    ffi.buffer(raw)[:] = b'\x5a' * (3 * size + 2)
+                    q = ffi.cast(T + ' *', raw + 1)
+                    target, imgat = raw, 1 + size
+                    before = bytes(ffi.buffer(raw))
+                    q[1] = V
+                    got = q[1]
+                elif form == 1:
+                    nf = nested_ffi(st, T)
+                    p = nf.new('struct pk *')
+                    nf.buffer(p)[:] = b'\x5a' * nf.sizeof('struct pk')
+                    target, imgat = p, 1
+                    tbuf = lambda p=p, nf=nf: bytes(nf.buffer(p))
+                    before = tbuf()
+                    if nf.offsetof('struct pk', 'f') != 1:
+                        rep('neighbour-changed', 'packed struct: field %s not at offset 1' % T, v)
+                    p.f = V
+                    got = p.f
+                else:
+                    ba = bytearray(b'\x5a' * (2 * size + 2))
+                    q = ffi.from_buffer(T + '[]', memoryview(ba)[1:1 + 2 * size])
+                    target, imgat = ba, 1 + size
+                    tbuf = lambda ba=ba: bytes(ba)
+                    before = tbuf()
+                    q[1] = V
+                    got = q[1]
+
+                def post(before=before, at=imgat, tb=tbuf, target=target):
+                    b = tb() if tb else bytes(ffi.buffer(target))
+                    if b[:at] != before[:at] or b[at + size:] != before[at + size:]:
+                        return 'bytes outside the stored item changed'
+            elif ep == 'abiglobal':
                 name = 'g_' + N
-                target = affi.addressof(alib, name)
-                before = bytes(affi.buffer(target))
-                setattr(alib, name, v)
+                target, imgat = affi.addressof(alib, name), 0
+                tbuf = lambda t=target: bytes(affi.buffer(t))
+                before = tbuf()
+                setattr(alib, name, V)
                 got = getattr(alib, name)
                 if norm(getattr(lib, name)) != norm(got):
                     rep('global-views-differ', '%s: ABI global reads %r, API reads %r' %
                         (T, got, getattr(lib, name)), v)
-            elif path == 'apiglobal':
+            elif ep == 'oolglobal':
                 name = 'g_' + N
-                target = ffi.addressof(lib, name)
+                target, imgat = offi.addressof(olib, name), 0
+                tbuf = lambda t=target: bytes(offi.buffer(t))
+                before = tbuf()
+                setattr(olib, name, V)
+                got = getattr(olib, name)
+                if norm(getattr(lib, name)) != norm(got):
+                    rep('global-views-differ', '%s: out-of-line ABI global reads %r, API reads '
+                        '%r' % (T, got, getattr(lib, name)), v)
+            elif ep == 'apiglobal':
+                name = 'g_' + N
+                target, imgat = ffi.addressof(lib, name), 0
                 before = bytes(ffi.buffer(target))
-                setattr(lib, name, v)
+                setattr(lib, name, V)
                 got = getattr(lib, name)
-            elif path in ('apiarg', 'ffiarg', 'abiarg'):
-                lib.last_s = 777
-                lib.last_u = 777
-                if path == 'apiarg':
-                    f = getattr(lib, 'id_' + N)
-                elif path == 'ffiarg':
-                    f = ffi.addressof(lib, 'id_' + N)
+            elif ep in CALL_PATHS:
+                kind, how = CALL_PATHS[ep]
+                callhow = how
+                reset_recorders(how)
+                f, fffi = func(kind, how)
+                expk = None
+                if kind == 'arg':
+                    got = f(V)
+                elif kind == 'arg2':
+                    if idx % 2:
+                        got = f(0, V, 7, W)
+                        expk = 7
+                    else:
+                        got = f(1, W, -9, V)
+                        expk = 1000 - 9
+                elif kind == 'ptrarg':
+                    form = idx % 3
+                    if form == 0:
+                        got = f([A, V, B], 1)
+                        expk = 1
+                    elif form == 1:
+                        got = f((V,), 0)
+                        expk = 0
+                    else:
+                        got = f([A, B, W, V], 3)
+                        expk = 3
+                elif kind == 'structarg':
+                    if idx % 2:
+                        got = f({'f': V})
+                        expk = 0
+                    else:
+                        got = f([b'a', V, b'b'])
+                        expk = ord('a') + 256 * ord('b')
                 else:
-                    f = getattr(alib, 'id_' + N)
-                got = f(v)
-                rec = lib.last_s if (signed and T != '_Bool') else lib.last_u
+                    if idx % 2:
+                        got = f(V)
+                    else:
+                        got = f(V, fffi.cast('int', 5), fffi.cast('long long', -1))
+                rec = recorded(how)
                 if rec != v:
                     rep('c-received-differs', '%s via %s: passed %d, C received %d' %
                         (T, path, v, rec), v)
-            elif path in ('callback_err', 'callback_noerr'):
-                if path == 'callback_err':
-                    cb = ffi.callback(T + '(void)', lambda: v, error=ERRV)
-                    expect_err = ERRV
-                else:
-                    cb = ffi.callback(T + '(void)', lambda: v)
+                if expk is not None and lib.last_k != expk:
+                    rep('c-received-differs', '%s via %s: passed %d, the other arguments '
+                        'arrived as %d, expected %d' % (T, path, v, lib.last_k, expk), v)
+            elif ep in ('callback_err', 'callback_noerr', 'callback_abi', 'callback_onerror'):
+                cffi_, clib = (affi, alib) if ep == 'callback_abi' else (ffi, lib)
+                cur['v'] = V
+                cur['onerr'] = []
+                cur['mode'] = idx % 3
+                if ep == 'callback_noerr':
+                    cb = cffi_.callback(T + '(void)', lambda: V)
                     expect_err = 0
-                got = getattr(lib, 'call_' + N)(cb)
+                elif ep == 'callback_onerror':
+                    cb = cffi_.callback(T + '(void)', lambda: V, error=ERRV,
+                                        onerror=onerror_handler)
+                    expect_err = W if cur['mode'] == 1 else ERRV
+                    stat('onerror_mode%d' % cur['mode'])
+                else:
+                    cb = cffi_.callback(T + '(void)', lambda: V, error=ERRV)
+                    expect_err = ERRV
+                if ep == 'callback_abi' and idx % 2:
+                    got = cb()          # Python -> libffi -> closure
+                    stat('callback_called_from_python')
+                else:
+                    got = getattr(clib, 'call_' + N)(cb)
+                if ep == 'callback_onerror':
+                    if inr and cur['onerr']:
+                        rep('onerror-called-for-inrange', '%s callback returned in-range %d but '
+                            'onerror was called with %r' % (T, v, cur['onerr']), v)
+                    if not inr and cur['onerr'] != ['OverflowError']:
+                        rep('onerror-not-called', '%s callback returned out-of-range %d: onerror '
+                            'calls %r, expected one call with OverflowError' %
+                            (T, v, cur['onerr']), v)
                 if not inr:
                     if norm(got) != expect_err:
-                        rep('callback-error-value', '%s callback returned out-of-range %d: C '
+                        mech = 'callback-error-value'
+                        if ep == 'callback_onerror' and cur['mode'] == 2:
+                            mech = 'onerror-bad-result-clobbers-error-value' + SMALLU
+                        rep(mech, '%s callback returned out-of-range %d%s: C '
                             'caller received %r, expected error value %r' %
-                            (T, v, got, expect_err), v)
+                            (T, v, (' (onerror mode %d)' % cur['mode'])
+                             if ep == 'callback_onerror' else '', got, expect_err), v)
                     counts['rejected'] += 1
                     continue
-            elif path == 'externpy':
-                cur['v'] = v
+            elif ep in ('externpy', 'externpy_onerror'):
+                cur['v'] = V
+                cur['onerr'] = []
+                cur['mode'] = idx % 3
+                expect_err = ERRV
+                if ep == 'externpy_onerror':
+                    stat('onerror_mode%d' % cur['mode'])
+                    if cur['mode'] == 1:
+                        expect_err = W
                 got = getattr(lib, 'callep_' + N)()
+                if ep == 'externpy_onerror':
+                    if inr and cur['onerr']:
+                        rep('onerror-called-for-inrange', '%s extern "Python" returned in-range '
+                            '%d but onerror was called with %r' % (T, v, cur['onerr']), v)
+                    if not inr and cur['onerr'] != ['OverflowError']:
+                        rep('onerror-not-called', '%s extern "Python" returned out-of-range %d: '
+                            'onerror calls %r, expected one call with OverflowError' %
+                            (T, v, cur['onerr']), v)
                 if not inr:
-                    if norm(got) != ERRV:
-                        rep('externpy-error-value', '%s extern "Python" returned out-of-range '
-                            '%d: C caller received %r, expected %r' % (T, v, got, ERRV), v)
+                    if norm(got) != expect_err:
+                        mech = 'externpy-error-value'
+                        if ep == 'externpy_onerror' and cur['mode'] == 2:
+                            mech = 'onerror-bad-result-clobbers-error-value' + SMALLU
+                        rep(mech, '%s extern "Python" returned out-of-range '
+                            '%d%s: C caller received %r, expected %r' %
+                            (T, v, (' (onerror mode %d)' % cur['mode'])
+                             if ep == 'externpy_onerror' else '', got, expect_err), v)
                     counts['rejected'] += 1
                     continue
+            else:
+                raise ValueError('unknown path %r' % (ep,))
         except Exception as e:
             exc = type(e).__name__
+            if exc == 'ValueError' and str(e).startswith('unknown path'):
+                raise
+        if ep != path:
+            stat('forms_' + ep)
         if inr:
             counts['accepted'] += 1
             if exc is not None:
                 rep('inrange-rejected', '%s via %s: in-range %d raised %s' % (T, path, v, exc), v)
             elif norm(got) != v:
                 rep('readback', '%s via %s: stored %d, read %r' % (T, path, v, got), v)
-            elif T == '_Bool' and not isinstance(got, bool):
+            elif isbool and not isinstance(got, bool):
                 rep('readback-type', '_Bool read back as %r' % (got,), v)
+            else:
+                if imgat is not None and target is not None:
+                    b = tbuf() if tbuf else bytes(ffi.buffer(target))
+                    stat('byte_images_checked')
+                    if image(b[imgat:imgat + size]) != v:
+                        rep('byte-image', '%s via %s: stored %d, the memory holds %s' %
+                            (T, path, v, b[imgat:imgat + size].hex()), v)
+                if post is not None:
+                    why = post()
+                    if why:
+                        rep('neighbour-changed', '%s via %s: store of %d: %s' %
+                            (T, path, v, why), v)
         else:
             counts['rejected'] += 1
             if exc is None:
@@ -241,33 +809,48 @@ def child_case(st, case):
             elif exc != 'OverflowError':
                 rep('wrong-exception', '%s via %s: out-of-range %d raised %s' %
                     (T, path, v, exc), v)
-            if target is not None:
-                buf = affi.buffer(target) if path == 'abiglobal' else ffi.buffer(target)
-                if bytes(buf) != before:
+            if callhow is not None and exc is not None:
+                stat('rejected_calls_checked')
+                if recorded(callhow) != SENTINEL:
+                    rep('c-called-on-rejected-arg', '%s via %s: out-of-range %d was rejected '
+                        'but the C function ran and received %d' %
+                        (T, path, v, recorded(callhow)), v)
+            if target is not None and before is not None:
+                b = tbuf() if tbuf else bytes(ffi.buffer(target))
+                stat('rejected_memory_checked')
+                if keep is None and ep == 'slice':
+                    # items of the slice before the rejected one are legitimately stored
+                    keep = [(0, start * size), (pos * size, (5 - pos) * size)]
+                if keep is None:
+                    same = (b == before)
+                else:
+                    same = all(b[o:o + n] == before[o:o + n] for o, n in keep)
+                if not same:
                     rep('rejected-store-changed-memory', '%s via %s: rejected %d changed the '
-                        'target %s -> %s' % (T, path, v, before.hex(), bytes(buf).hex()), v)
+                        'target %s -> %s' % (T, path, v, before.hex(), b.hex()), v)
     return {'bad': bad, 'counts': counts}
 
 
 def judge(ctx, setup, case, obs):
     T, path = case['T'], case['path']
+    if obs.get('skipped'):
+        ctx.inconclusive('ffi.verify() module was not found by the child')
+        return
     for v in case['vals']:
         ctx.case((T, path, v), nontrivial=abs(v) > 1)
     if len(ctx.samples) < 10:
-        ctx.samples.append({'T': T, 'path': path, 'values': case['vals'][::max(1, len(case['vals']) // 8)]})
+        ctx.samples.append({'T': T, 'path': path, 'errv': case.get('errv'),
+                            'values': case['vals'][::max(1, len(case['vals']) // 8)]})
     ctx.count('path_' + path, len(case['vals']))
     for k, n in obs['counts'].items():
         ctx.count(k, n)
     for mech, msg, v in obs['bad']:
         c = dict(case)
-        c['vals'] = [v]
+        # keep the position of v in the list: the form of a store depends on it
+        i = case['vals'].index(v) if v in case['vals'] else 0
+        c['vals'] = case['vals'][:i + 1] if path in MED_PATHS else [v]
         ctx.violation('%s:%s' % (mech, path), msg, c)
 
 
 def replay_setup(ctx, case):
-    d = os.path.join(ctx.tmp, 'mod')
-    spec = module_spec(d)
-    res = modbuild.build_modules(ctx, [spec])['_c03mod']
-    if not res['ok']:
-        raise core.Inconclusive('helper module build failed: ' + res['error'])
-    return {'dir': d, 'cdef': spec['cdef']}
+    return build_all(ctx)
